@@ -503,21 +503,8 @@ func ruleC08VerifyBeforeUse(c *Ctx) {
 				c.unresolved("callback positions in call of recovery.Index at %s", c.pos(cs.Call.Pos()))
 				continue
 			}
-			// callbacks are function literals or references to repository functions
-			resolveFn := func(e ast.Expr) *FuncInfo {
-				e = ast.Unparen(e)
-				if lit, ok := e.(*ast.FuncLit); ok {
-					return c.byLit[lit]
-				}
-				if fn, ok := objOfIdentOrSel(f.Pkg.TypesInfo, e).(*types.Func); ok {
-					return c.byObj[fn]
-				}
-				if v, ok := objOfIdent(f.Pkg.TypesInfo, e).(*types.Var); ok {
-					return c.litOfVar[v]
-				}
-				return nil
-			}
-			vf, df := resolveFn(cs.Call.Args[vi]), resolveFn(cs.Call.Args[di])
+			vf, _ := c.callbackFunc(f, cs.Call.Args[vi])
+			df, dbind := c.callbackFunc(f, cs.Call.Args[di])
 			if vf == nil || df == nil {
 				c.undecided(rule, f, construct, cs.Call.Pos(), "verifier/decrypt argument is neither a function literal nor a repository function; cannot decide what it does")
 				continue
@@ -589,7 +576,15 @@ func ruleC08VerifyBeforeUse(c *Ctx) {
 					return false
 				}
 				v, ok := objOfIdent(dinfo, ix.X).(*types.Var)
-				return ok && !v.IsField() && v.Pos() < dlit.Pos() // captured local of the operation
+				if !ok || v.IsField() {
+					return false
+				}
+				if arg, bound := dbind[v]; bound {
+					// factory parameter: the operation must pass one of its own locals
+					lv, ok := objOfIdent(f.Pkg.TypesInfo, arg).(*types.Var)
+					return ok && !lv.IsField()
+				}
+				return v.Pos() < dlit.Pos() // captured local of the operation
 			}
 			allOverwrite := true
 			nret := 0
